@@ -245,7 +245,9 @@ def random_trait(rng, name="Tr", dyn_safe=False, allow_async=True, with_async_tr
     if allow_generic_trait and (t.generic or t.const_pos) and rng.random() < 0.3:
         t.defaults = True
     if with_async_trait:
-        t.async_trait = rng.choice(["#[::async_trait::async_trait]", "#[async_trait::async_trait]", "#[::async_trait::async_trait(?Send)]"])
+        # (also through a re-export: the attribute is recognised by the *last* segment of its path)
+        t.async_trait = rng.choice(["#[::async_trait::async_trait]", "#[async_trait::async_trait]", "#[::async_trait::async_trait(?Send)]",
+                                    "#[rx::async_trait]", "#[self::rx::inner::async_trait]", "#[rx::async_trait(?Send)]"])
     n = nmethods or rng.randint(1, 4)
     same = rng.random() < 0.4 and n >= 2
     first = None
@@ -271,9 +273,12 @@ def random_trait(rng, name="Tr", dyn_safe=False, allow_async=True, with_async_tr
     return t
 
 
-def support_for(methods):
+RX_MOD = "pub mod rx { pub use ::async_trait::async_trait; pub mod inner { pub use ::async_trait::async_trait; } }"
+
+
+def support_for(methods, trait=None):
     need = set()
     for m in methods:
         for p in m.params:
             need |= set(p.ty.needs)
-    return [SUPPORT[n] for n in sorted(need)]
+    return [SUPPORT[n] for n in sorted(need)] + ([RX_MOD] if trait is not None and "rx::" in (trait.async_trait or "") else [])
